@@ -151,6 +151,7 @@ fn c04_inprocess(ctx: &Ctx) -> Stats {
         let mut engine = Flounder::new();
         let mut since_new = 0;
         let mut prev: Option<String> = None;
+        let mut prev_game: Option<Game> = None;
         for k in 0..(n / ctx.workers as u64 + 1) {
             if k >= 50 && ctx.past(0.6) {
                 break;
@@ -160,8 +161,60 @@ fn c04_inprocess(ctx: &Ctx) -> Stats {
                 engine = Flounder::new();
                 since_new = 0;
                 prev = None;
+                prev_game = None;
             }
-            let g = random_game(&mut rng);
+            // what a GUI really sends: the same game line again, grown by a few plies or cut short (a
+            // take-back), with other commands in between — a search, ucinewgame, isready, junk
+            let mut between: Option<&'static str> = None;
+            let g = match prev_game.as_ref() {
+                Some(pg) if since_new > 0 && rng.chance(2, 5) => {
+                    let pg: &Game = pg;
+                    if rng.chance(1, 2) {
+                        between = Some(*rng.pick(&["ucinewgame", "ucinewgame", "isready", "go depth 1", "go depth 2", "uci", "stop", "xq_unknown_word"]));
+                    }
+                    let mut g2 = pg.clone();
+                    match rng.below(4) {
+                        0 => {
+                            st.bump("commands_repeating_the_previous_game_line");
+                        }
+                        1 if !g2.moves.is_empty() => {
+                            let keep = rng.below(g2.moves.len() as u64) as usize;
+                            g2.moves.truncate(keep);
+                            g2.positions.truncate(keep + 1);
+                            st.bump("commands_cutting_the_previous_game_line_short");
+                        }
+                        _ => {
+                            let add = [1usize, 1, 2, 2, 3, 9][rng.below(6) as usize];
+                            let cur = g2.current().clone();
+                            let (ps, ms) = gen::playout(&cur, &mut rng, add);
+                            g2.moves.extend(ms);
+                            g2.positions.extend(ps.into_iter().skip(1));
+                            st.bump("commands_extending_the_previous_game_line");
+                        }
+                    }
+                    g2
+                }
+                _ => random_game(&mut rng),
+            };
+            if let Some(b) = between {
+                st.bump(&format!("between_two_position_commands_{}", b.replace(' ', "_")));
+                let r = {
+                    let e = &mut engine;
+                    engine_call(|| e.verif_handle_command(b))
+                };
+                if let Err(msg) = r {
+                    st.violation(
+                        format!("C04:panic-between:{}:{}", b, prev.clone().unwrap_or_default()),
+                        format!("'{}' after '{}' panicked: {}", b, shorten(&prev.clone().unwrap_or_default()), msg),
+                        J::obj(vec![("kind", J::s("inprocess")), ("command", J::s(b)), ("previous_command", J::s(prev.clone().unwrap_or_default()))]),
+                    );
+                    engine = Flounder::new();
+                    since_new = 0;
+                    prev = None;
+                    prev_game = None;
+                    continue;
+                }
+            }
             let cmd = g.command(Some(&mut rng));
             note_move_features(&g, &mut st);
             if since_new > 0 {
@@ -169,7 +222,7 @@ fn c04_inprocess(ctx: &Ctx) -> Stats {
             }
             st.case(hash64(&cmd), !g.moves.is_empty() || !g.startpos);
             st.sample_tagged(if g.startpos { "startpos" } else { "fen" }, || g.json());
-            let case = || J::obj(vec![("kind", J::s("inprocess")), ("command", J::s(cmd.clone())), ("previous_command", J::s(prev.clone().unwrap_or_default()))]);
+            let case = || J::obj(vec![("kind", J::s("inprocess")), ("command", J::s(cmd.clone())), ("previous_command", J::s(prev.clone().unwrap_or_default())), ("between", J::s(between.unwrap_or("")))]);
             let r = {
                 let e = &mut engine;
                 engine_call(|| e.verif_handle_command(&cmd))
@@ -184,6 +237,7 @@ fn c04_inprocess(ctx: &Ctx) -> Stats {
                     engine = Flounder::new();
                     since_new = 0;
                     prev = None;
+                    prev_game = None;
                     continue;
                 }
                 Ok(()) => {
@@ -198,6 +252,7 @@ fn c04_inprocess(ctx: &Ctx) -> Stats {
             }
             since_new += 1;
             prev = Some(cmd);
+            prev_game = Some(g);
         }
         st
     })
@@ -281,12 +336,12 @@ fn c04_blackbox(ctx: &Ctx) -> Stats {
 pub fn run_c04(ctx: &Ctx) -> i32 {
     let spec = Spec {
         level: "exploration",
-        rule: "a case is one position command built from a reference game: 'startpos' or a six-field FEN exported from another game (halfmove clock in {0..149}, fullmove number in {1..5899}), followed by 0..300 legal moves in UCI notation (castling as king moves, en passant, all four promotion letters with and without capture); commands are issued in sequences on one engine (later ones must fully replace earlier ones), with occasional repeated blanks/tabs between tokens. In-process (hook) the engine's board is read back and compared field by field with the reference position; black-box the real binary must survive the command and answer 'go depth 1' with a legal move of that position. Distinct by command text; non-trivial when the command has moves or a FEN",
+        rule: "a case is one position command built from a reference game: 'startpos' or a six-field FEN exported from another game (halfmove clock in {0..149}, fullmove number in {1..5899}), followed by 0..300 legal moves in UCI notation (castling as king moves, en passant, all four promotion letters with and without capture); commands are issued in sequences on one engine (later ones must fully replace earlier ones; two fifths of them give the previous command's game line again — extended by 1..9 plies, unchanged, or cut short — half of those with another command in between: ucinewgame, a depth-limited go, isready, uci, unknown words), with occasional repeated blanks/tabs between tokens. In-process (hook) the engine's board is read back and compared field by field with the reference position; black-box the real binary must survive the command and answer 'go depth 1' with a legal move of that position. Distinct by command text; non-trivial when the command has moves or a FEN",
         assumptions: vec!["the reference rules implementation is correct (perft self-test at every run)".into(), "move counters are not compared (the property is about the position); they only have to be accepted".into()],
         required: if ctx.replay.is_some() {
             vec![]
         } else {
-            vec!["startpos_form", "fen_form", "fen_fullmove_above_255", "fen_halfmove_100_or_more", "fen_with_ep_square", "moves_castle_kingside", "moves_castle_queenside", "moves_en_passant", "moves_promotion_n", "moves_promotion_b", "moves_promotion_r", "moves_promotion_q", "moves_promotion_with_capture", "commands_after_an_earlier_position_command", "blackbox_commands"]
+            vec!["startpos_form", "fen_form", "fen_fullmove_above_255", "fen_halfmove_100_or_more", "fen_with_ep_square", "moves_castle_kingside", "moves_castle_queenside", "moves_en_passant", "moves_promotion_n", "moves_promotion_b", "moves_promotion_r", "moves_promotion_q", "moves_promotion_with_capture", "commands_after_an_earlier_position_command", "commands_extending_the_previous_game_line", "commands_cutting_the_previous_game_line_short", "between_two_position_commands_ucinewgame", "between_two_position_commands_go_depth_1", "blackbox_commands"]
         },
         exhaustive: false,
         extra: vec![],
@@ -369,9 +424,17 @@ fn replay_c04(ctx: &Ctx, c: &J, st: &mut Stats) {
         return;
     }
     let mut engine = Flounder::new();
-    for key in ["previous_command", "command"] {
+    for key in ["previous_command", "between", "command"] {
         let cmd = c.str_of(key);
         if cmd.is_empty() {
+            continue;
+        }
+        if key == "between" {
+            let e = &mut engine;
+            if let Err(msg) = engine_call(|| e.verif_handle_command(&cmd)) {
+                st.violation("C04:replay:panic", format!("'{}' panicked: {}", cmd, msg), c.clone());
+                return;
+            }
             continue;
         }
         st.case(hash64(&cmd), true);
